@@ -30,4 +30,33 @@ def run_property(ctx, level, explanation, p_parts=(), b_modules=(), assumptions=
             n1 = sum(g["evaluations"] for g in ctx.bounded_groups.values())
             if n1 == n0:
                 ctx.engine_error(f"bounded module {m}: zero contract evaluations")
+    if ctx.tier == "thorough" and not os.environ.get("VERIF_REPO") and not os.environ.get("VERIF_NO_CANARIES"):
+        run_canaries(ctx)
     return ctx.finish(level, explanation)
+
+
+def run_canaries(ctx):
+    """thorough tier self-test (DESIGN 3.7): deliberately broken bodies (and harmless edits) applied to a scratch copy of
+    /repo outside /repo and /verif; a canary that is not reported - or a harmless edit that is - fails the run (exit 3)."""
+    import json
+    import sys
+    here = os.path.dirname(os.path.dirname(os.path.abspath(__file__)))
+    f = os.path.join(here, "canaries", ctx.prop + ".json")
+    if not os.path.exists(f):
+        return
+    sys.path.insert(0, os.path.join(here, "tools"))
+    import mut
+    n_ok = 0
+    for c in json.load(open(f)):
+        env = dict(c.get("env") or {}, VERIF_NO_CANARIES="1")
+        res, err = mut.run_canary(c["prop"], c["edits"], "quick", env)
+        if err:
+            ctx.note(f"canary {c['name']}: not applicable to the current source ({err})")
+            continue
+        rc, viol, detail, stderr = res
+        got = "violation" if rc == 1 and viol else "clean" if rc == 0 else f"rc={rc}"
+        if got == c.get("expect", "violation"):
+            n_ok += 1
+        else:
+            ctx.engine_error(f"canary {c['name']}: expected {c.get('expect', 'violation')}, got {got}")
+    ctx.note(f"thorough self-test: {n_ok} canary mutations behaved as expected")
